@@ -138,6 +138,10 @@ class OpPaths:
         Returns (list of (cond, pol), feasible)."""
         from flow import unwrap_casts
         c = unwrap_casts(cond)
+        if isinstance(c, dict) and c.get('k') == 'un' and c.get('op') == '!':
+            inner = unwrap_casts(c.get('e'))
+            if isinstance(inner, dict) and inner.get('k') == 'bin' and inner.get('op') in ('&&', '||'):
+                return OpPaths._logical_conds(fn, visited, inner, 'F' if pol == 'T' else 'T')
         if not (isinstance(c, dict) and c.get('k') == 'bin' and c.get('op') in ('&&', '||')):
             return [(cond, pol)], True
         r = c.get('r')
